@@ -169,6 +169,10 @@ WriterPreference == [][owner["nr"] \in Writers => rc' <= rc]_vars
 WriterWaiting(t) == pc[t] \in {"wa_nr", "wa_wm_rel", "wa_nw"}
 StrongWriterPreference == [][(\E w \in Writers : WriterWaiting(w)) => rc' <= rc]_vars
 
+(* What a user observes - who is inside - is a behaviour of the abstract reader-writer lock RWLockAbs *)
+Abs == INSTANCE RWLockAbs WITH rd <- {t \in Readers : InCS(t)}, wr <- {t \in Writers : InCS(t)}
+RefinesAbstract == Abs!Spec
+
 (* reachability witness: readers do share.  Checked as an invariant TLC must VIOLATE. *)
 ReadersNeverShare == ~ \E r1, r2 \in Readers : r1 # r2 /\ InCS(r1) /\ InCS(r2)
 =============================================================================
